@@ -43,7 +43,36 @@ def run(ctx, rep):
         if not incl:
             rlo, rhi = rlo - 1, rhi - 1
         if (rlo, rhi) == D.TOP or rlo == -D.INF:
-            rep.ob('R9.1', 'search-radius', None, f'bound {show(hi, maxd=4)[:80]} not bounded from below')
+            # not bounded as a whole: a single case of the bound that is provably too small is still a violation
+            def cases(t):
+                if isinstance(t, tuple) and t and t[0] == 'ite':
+                    yield from cases(t[2])
+                    yield from cases(t[3])
+                elif isinstance(t, tuple) and t and t[0] in ('app', 'cast') and any(isinstance(a, tuple) and a and a[0] == 'ite'
+                                                                                  for a in (t[2] if t[0] == 'app' else (t[2],))):
+                    if t[0] == 'cast':
+                        for b in cases(t[2]):
+                            yield ('cast', t[1], b) + tuple(t[3:])
+                    else:
+                        args = list(t[2])
+                        i_ = next(i for i, a in enumerate(args) if isinstance(a, tuple) and a and a[0] == 'ite')
+                        for b in cases(args[i_]):
+                            yield from cases(('app', t[1], tuple(args[:i_] + [b] + args[i_ + 1:])))
+                else:
+                    yield t
+            small = None
+            for leaf in cases(hi):
+                l0, l1 = D.rng(leaf)
+                if not incl:
+                    l0, l1 = l0 - 1, l1 - 1
+                if l1 < MIN_RADIUS:
+                    small = (leaf, l1)
+            if small is not None:
+                rep.ob('R9.1', 'search-radius', False,
+                       f'in one case the search radius is at most {small[1]:g} days ({show(small[0], maxd=4)[:100]}): '
+                       f'good days further away are never reached (needs >= {MIN_RADIUS})')
+            else:
+                rep.ob('R9.1', 'search-radius', None, f'bound {show(hi, maxd=4)[:80]} not bounded from below')
         else:
             rep.ob('R9.1', 'search-radius', rlo >= MIN_RADIUS,
                    f'search radius is at least {rlo:.0f} days' if rlo >= MIN_RADIUS else
